@@ -328,14 +328,14 @@ func same(a, b *tracked) bool {
 func judge(r *kit.Run, a *adapter, before, after *tracked, cs []*hdrCase, what string, replay func() interface{}) bool {
 	r.Count(a.name+"_observed_calls", 1)
 	if before != nil && after == nil {
-		r.Violation(a.name+":tracked-record-vanished", what, replay())
+		viol(r, a.name+":tracked-record-vanished", what, replay())
 		return false
 	}
 	if before == nil {
 		return true
 	}
 	if after.H < before.H {
-		r.Violation(a.name+":tracked-height-decreased", fmt.Sprintf("%s: tracked %v -> %v", what, before, after), replay())
+		viol(r, a.name+":tracked-height-decreased", fmt.Sprintf("%s: tracked %v -> %v", what, before, after), replay())
 		return false
 	}
 	if same(before, after) {
@@ -375,7 +375,7 @@ func judge(r *kit.Run, a *adapter, before, after *tracked, cs []*hdrCase, what s
 	} else if len(cs) == 0 {
 		key = a.name + ":tracked-changed-without-header"
 	}
-	r.Violation(key, fmt.Sprintf("%s: tracked %v -> %v", what, before, after), replay())
+	viol(r, key, fmt.Sprintf("%s: tracked %v -> %v", what, before, after), replay())
 	return false
 }
 
@@ -870,13 +870,13 @@ func depositEpisode(t *testing.T, r *kit.Run, a *adapter, rng *rand.Rand, maxN, 
 		}
 		switch {
 		case !hdrOK:
-			r.Violation(a.name+":deposit-accepted-under-unverified-header",
+			viol(r, a.name+":deposit-accepted-under-unverified-header",
 				fmt.Sprintf("deposit kind=%s accepted although the header is not verifiable against the tracked set (valset ok=%v, valid power %d of %d)", kind, hc.valsetOK(before), hc.validPower, hc.total), replay())
 		case !exists && kp == "" && pv == nil:
-			r.Violation(a.name+":absence-proof-accepted-as-deposit",
+			viol(r, a.name+":absence-proof-accepted-as-deposit",
 				fmt.Sprintf("ImportOuterTransfer accepted a message that is NOT in the committed state: empty key path + absence proof of key path string(Value)=%q under an honestly verified header", string(value[:40])+"…"), replay())
 		case !exists:
-			r.Violation(a.name+":deposit-accepted-without-existence",
+			viol(r, a.name+":deposit-accepted-without-existence",
 				fmt.Sprintf("deposit kind=%s accepted but the message is not a value of the state committed by the header", kind), replay())
 		}
 	}
